@@ -185,7 +185,7 @@ SegJ(s) ==
   IF s.c = "junk" THEN [c |-> "junk", n |-> s.n]
   ELSE IF s.c = "fake" THEN [c |-> "fake", k |-> s.k, why |-> s.why, pad |-> Pick(0..5)]
   ELSE IF s.c = "overlap" THEN [c |-> "overlap", s |-> Pick(0..999)]
-  ELSE [c |-> "wrap", k |-> s.k, big |-> s.big, s |-> Pick(0..999), hdr |-> Pick(0..3),
+  ELSE [c |-> "wrap", k |-> s.k, big |-> s.big, s |-> Pick(0..999), hdr |-> Pick(0..7),
         flags |-> 2 * Pick(0..15), x |-> Pick({0, 1, 300, 3000}), nm |-> Pick({0, 1, 40, 255, 256, 5000}), cm |-> Pick({0, 1, 40, 256, 5000}),
         sizes |-> Pick({<<>>, <<1>>, <<2, 1>>, <<5, 6, 7>>, <<1000>>, <<1024, 8192>>, <<100, 100, 100>>}),
         trail |-> 0]
